@@ -29,6 +29,7 @@ fn main() {
         ("search", "c18_members") => u_members::search(),
         ("search", "c09_readers") => u_readers::search(),
         ("search", "c09_packfmt") => u_packfmt::search(),
+        ("run", "c09_pack") => u_packfmt::run(rest),
         ("search", "c09_syncmsg") => u_syncmsg::search(),
         ("search", "c15_schema") => u_schema::search(),
         ("run", "c09_syncmsg") => u_syncmsg::run(rest),
